@@ -88,9 +88,42 @@ def touch_everything(objs):
                 pass
 
 
-def run_script(sc, sudachipy):
+class FakeNormalizedString:
+    """stand-in for tokenizers.NormalizedString: what SudachiPreTokenizer needs from it"""
+
+    def __init__(self, text):
+        self.text = text
+
+    def __str__(self):
+        return self.text
+
+    def slice(self, sl):
+        return self.text[sl]
+
+
+def install_tokenizers_standin():
+    import types
+    if "tokenizers" in sys.modules:
+        return
+    tok = types.ModuleType("tokenizers")
+    pre = types.ModuleType("tokenizers.pre_tokenizers")
+
+    class PreTokenizer:
+        @staticmethod
+        def custom(obj):
+            return obj
+
+    pre.PreTokenizer = PreTokenizer
+    tok.pre_tokenizers = pre
+    tok.NormalizedString = FakeNormalizedString
+    sys.modules["tokenizers"] = tok
+    sys.modules["tokenizers.pre_tokenizers"] = pre
+
+
+def run_script(sc, sudachipy, dic=None, point=None, pretoks=None):
     stats = {"ops": 0, "values": 0, "skipped": 0, "stale_touches": 0, "per_call_mode": 0, "out_reuse": 0}
-    dic = sudachipy.Dictionary(config=sc["config"], resource_dir=sc["dir"])
+    if dic is None:
+        dic = sudachipy.Dictionary(config=sc["config"], resource_dir=sc["dir"])
     toks = []
     for t in sc["tokenizers"]:
         kw = {}
@@ -120,9 +153,21 @@ def run_script(sc, sudachipy):
         stale.discard(id(lst))
     for k, op in enumerate(sc["ops"]):
         stats["ops"] += 1
+        if point is not None:
+            point()
         try:
             kind = op["op"]
-            if kind == "tokenize":
+            if kind == "pretok":
+                if pretoks is None:
+                    stats["skipped"] += 1
+                    continue
+                pt = pretoks[0] if op["handler"] else pretoks[1]
+                got = pt(k, FakeNormalizedString(op["text"]))
+                got = [str(x) for x in got]
+                stats["values"] += len(got)
+                if got != op["expect"]:
+                    raise Mismatch("result-differs-from-sequential", "pretokenizer", {"python": got[:12], "core": op["expect"][:12], "handler": op["handler"]})
+            elif kind == "tokenize":
                 tok, tspec = toks[op["t"]]
                 kw = {}
                 if op["mode"] is not None:
@@ -234,6 +279,116 @@ def run_script(sc, sudachipy):
     return {"script": sc["script"], "ok": True, "stats": stats}
 
 
+def run_thread_case(case, sudachipy, vb, sched=None):
+    import ctypes
+    import threading
+    install_tokenizers_standin()
+    nt = len(case["threads"])
+    dic = sudachipy.Dictionary(config=case["config"], resource_dir=case["dir"])
+
+    def handler(i, s_, ml):
+        vb.vb_point()  # the interpreter may switch threads inside a handler
+        out = [m.surface() for m in ml]
+        vb.vb_point()
+        return out
+
+    pre_h = dic.pre_tokenizer(mode="C", handler=handler)
+    pre_n = dic.pre_tokenizer(mode="C")
+    results = [None] * nt
+
+    def worker(tid):
+        vb.vb_thread_begin(tid)
+        try:
+            results[tid] = run_script(case["threads"][tid], sudachipy, dic=dic, point=vb.vb_point, pretoks=(pre_h, pre_n))
+        except BaseException as ex:  # noqa
+            results[tid] = {"ok": False, "op": -1, "class": "unexpected-exception", "site": type(ex).__name__, "detail": {"message": str(ex)[:300]}, "stats": {}}
+        finally:
+            vb.vb_thread_end()
+
+    vb.vb_reset(nt)
+    ths = [threading.Thread(target=worker, args=(t,)) for t in range(nt)]
+    for t in ths:
+        t.start()
+    cap = 20000
+    buf = (ctypes.c_ubyte * cap)()
+    if sched is not None:
+        arr = (ctypes.c_ubyte * max(1, len(sched)))(*sched)
+        n = vb.vb_run(arr, len(sched), ctypes.c_uint64(0), buf, cap)
+    else:
+        n = vb.vb_run(None, 0, ctypes.c_uint64(case["sched_seed"]), buf, cap)
+    if n < 0:
+        return {"case": case["case"], "ok": False, "op": 0, "class": "no-progress", "site": "baton-wait-timeout", "detail": {}, "stats": {}, "fatal": True}
+    for t in ths:
+        t.join()
+    choices = list(buf[:min(n, cap)])
+    switches = sum(1 for i in range(1, len(choices)) if choices[i] != choices[i - 1])
+    stats = {"threads": nt, "sched_points": n, "context_switches": switches}
+    for tid, r in enumerate(results):
+        for k2, v2 in (r or {}).get("stats", {}).items():
+            stats[k2] = stats.get(k2, 0) + v2
+        if r is None or not r["ok"]:
+            r = r or {"class": "thread-lost", "site": "no-result", "op": 0, "detail": {}}
+            cls = r["class"]
+            if cls == "result-differs-from-core":
+                cls = "result-differs-from-sequential"
+            return {"case": case["case"], "ok": False, "op": r["op"], "class": cls, "site": r["site"],
+                    "detail": dict(r["detail"], thread=tid), "schedule": choices, "stats": stats}
+    return {"case": case["case"], "ok": True, "stats": stats, "schedule_hash": hash(bytes(choices)) & 0xffffffff, "schedule_len": len(choices)}
+
+
+def child_threads(path, stage, baton, first, step, replay_sched=None):
+    import ctypes
+    sys.path.insert(0, stage)
+    vb = ctypes.CDLL(baton, mode=ctypes.RTLD_GLOBAL)
+    vb.vb_run.restype = ctypes.c_int
+    import sudachipy  # noqa
+    cases = load_scripts(path)
+    for i in range(first, len(cases), step):
+        print(json.dumps({"begin": cases[i]["case"]}), flush=True)
+        res = run_thread_case(cases[i], sudachipy, vb, sched=replay_sched)
+        print(json.dumps(res, ensure_ascii=False), flush=True)
+        if res.get("fatal"):
+            sys.stdout.flush()
+            os._exit(3)
+
+
+def run_threads(path, stage, baton, jobs, out, replay_sched=None):
+    cases = load_scripts(path)
+    procs = []
+    env = dict(os.environ, PYTHONHASHSEED=os.environ.get("PYTHONHASHSEED", "0"))
+    for j in range(jobs):
+        cmd = [sys.executable, os.path.abspath(__file__), "child-threads", path, stage, baton, str(j), str(jobs)]
+        if replay_sched is not None:
+            cmd.append(json.dumps(replay_sched))
+        procs.append(subprocess.Popen(cmd, stdout=subprocess.PIPE, stderr=subprocess.PIPE, text=True, env=env))
+    results = []
+    for p in procs:
+        so, se = p.communicate()
+        current = None
+        for line in so.splitlines():
+            try:
+                d = json.loads(line)
+            except ValueError:
+                continue
+            if "begin" in d:
+                current = d["begin"]
+            else:
+                results.append(d)
+                current = None
+        if p.returncode != 0 and current is not None:
+            results.append({"case": current, "ok": False, "op": -1, "class": "interpreter-crash",
+                            "site": "signal-%d" % (-p.returncode) if p.returncode < 0 else "exit-%d" % p.returncode,
+                            "detail": {"stderr": se[-600:]}, "stats": {}})
+        elif p.returncode not in (0, 3) and current is None:
+            results.append({"case": -1, "ok": False, "op": 0, "class": "harness-error", "site": "child", "detail": {"returncode": p.returncode, "stderr": se[-600:]}, "stats": {}})
+    results.sort(key=lambda r: r["case"])
+    with open(out, "w", encoding="utf-8") as f:
+        json.dump({"cases": len(cases), "results": results}, f, ensure_ascii=False)
+    bad = [r for r in results if not r["ok"]]
+    print("pysim-threads: cases=%d results=%d failing=%d" % (len(cases), len(results), len(bad)))
+    return 0 if not bad else 1
+
+
 def child(path, stage, first, step):
     sys.path.insert(0, stage)
     import sudachipy  # noqa
@@ -285,6 +440,23 @@ def run(path, stage, jobs, out):
 if __name__ == "__main__":
     if sys.argv[1] == "child":
         child(sys.argv[2], sys.argv[3], int(sys.argv[4]), int(sys.argv[5]))
+    elif sys.argv[1] == "child-threads":
+        rs = json.loads(sys.argv[7]) if len(sys.argv) > 7 else None
+        child_threads(sys.argv[2], sys.argv[3], sys.argv[4], int(sys.argv[5]), int(sys.argv[6]), rs)
+    elif sys.argv[1] == "threads":
+        # pysim.py threads <threads.jsonl> <stage> <libvbaton.so> [--jobs N] [--out f] [--sched json]
+        jobs, out, rs = 8, "pysim-threads.json", None
+        a = sys.argv[5:]
+        while a:
+            if a[0] == "--jobs":
+                jobs = int(a[1]); a = a[2:]
+            elif a[0] == "--out":
+                out = a[1]; a = a[2:]
+            elif a[0] == "--sched":
+                rs = json.loads(a[1]); a = a[2:]
+            else:
+                a = a[1:]
+        sys.exit(run_threads(sys.argv[2], sys.argv[3], sys.argv[4], jobs, out, rs))
     else:
         jobs = 16
         out = "pysim-results.json"
